@@ -369,6 +369,34 @@ func (w *c05World) deepOracle(m *ordered.MapSA) {
 		if !ordered.EqualSA(m, m) {
 			w.fail("Equal reflexive", "false", "true")
 		}
+		// a twin with the same contents and (when the deletes do not compact) the same number of
+		// storage slots, but its tombstones at other positions
+		if slots, _, _ := m.VerifDump(); len(slots) > len(w.ref) {
+			junk := len(slots) - len(w.ref)
+			twin := ordered.NewMap[string, any](0)
+			at := map[int]bool{}
+			trng := core.NewRand(uint64(len(w.hist))*131 + uint64(len(slots)))
+			for len(at) < junk {
+				at[trng.Intn(len(slots))] = true
+			}
+			li := 0
+			for pos := 0; pos < len(slots); pos++ {
+				if at[pos] || li >= len(w.ref) {
+					twin.Set(fmt.Sprintf("\x00junk%d", pos), pos)
+				} else {
+					twin.Set(w.ref[li].K, w.ref[li].V)
+					li++
+				}
+			}
+			for pos := range slots {
+				twin.Delete(fmt.Sprintf("\x00junk%d", pos))
+			}
+			if !ordered.EqualSA(m, twin) || !ordered.EqualSA(twin, m) {
+				ts, _, _ := twin.VerifDump()
+				w.fail(fmt.Sprintf("Equal against a twin with the same contents and other tombstone positions (%d vs %d slots)", len(slots), len(ts)), "false", "true")
+			}
+			w.c.res.Hist("equal.tombstone-twin")
+		}
 		if len(w.ref) > 0 {
 			other := ordered.NewMap[string, any](0)
 			for i := len(w.ref) - 1; i >= 0; i-- {
